@@ -11,6 +11,11 @@ CONSTANTS
   DropZero = FALSE
   Fresh = FALSE
   BothInstall = FALSE
+  Alt <- MCRules1
+  MaxReloads = 0
+  CountOld = FALSE
+  ExitCurrent = FALSE
+  Remap <- MCRemap3
 VIEW view
-INVARIANTS TypeOK Conserved CounterOK Capped PendCapped ZeroAfterDrain DecisionOK OneObject
+INVARIANTS TypeOK Conserved CounterOK Capped PendCapped ZeroAfterDrain DecisionOK OneObject FigureInRange
 CHECK_DEADLOCK FALSE
